@@ -285,6 +285,50 @@ def Db.reopen (d : Db) : Db :=
   let h := if h.minT < h.minValid then { h with minT := h.minValid } else h
   { h with series := h.series.filter fun s => !s.phys.isEmpty }
 
+/-- Restart with the m-mapped-chunk oracle. At start-up the head loads the m-mapped chunks of each
+    series from `chunks_head` and the WAL replay skips every sample at or below the series' `mmMaxTime`
+    (the max time of those chunks). Chunk boundaries are not modelled, so `mm : series ↦ mmMaxTime` is
+    supplied by the harness (read from the real head after the restart). What it decides is only which
+    *physical* samples are in the head and hence `Head.MinTime()`: samples at or below `mmMaxTime` are
+    exactly those that were physically in the head before the restart (`d.series`), samples above it come
+    from the WAL. With the empty oracle this is `Db.reopen`. -/
+def Db.reopenWith (mm : List (Nat × Int)) (d : Db) : Db :=
+  let mmOf := fun (i : Nat) => ((mm.find? (·.1 = i)).map (·.2)).getD MinI64
+  let mv : Int := d.blocks.foldl (fun m b => max m b.maxt) MinI64
+  let base0 : Db :=
+    if d.blocks.isEmpty then { cfg := d.cfg, blocks := d.blocks, wal := d.wal }
+    else { cfg := d.cfg, minT := mv, maxT := mv, minValid := mv, blocks := d.blocks, wal := d.wal }
+  -- m-mapped chunks: what was in the head, at or below mmMaxTime, not older than the blocks
+  let kept : List HSeries := d.series.filterMap fun s =>
+    let xs := s.phys.filter fun x => x.t ≤ mmOf s.idx ∧ x.t ≥ mv
+    if xs.isEmpty then none else some ⟨s.idx, xs, []⟩
+  let base : Db := { base0 with series := kept }
+  let lo0 : Int := kept.foldl (fun m s => match s.phys.head? with | some f => min m f.t | none => m) MaxI64
+  let hi0 : Int := kept.foldl (fun m s => match s.phys.getLast? with | some l => max m l.t | none => m) MinI64
+  let step := fun (acc : Db × Int × Int) (r : Rec) =>
+    let (h, lo, hi) := acc
+    match r with
+    | .samples xs =>
+      xs.foldl (fun (acc : Db × Int × Int) (p : Nat × Smp) =>
+        let (h, lo, hi) := acc
+        if p.2.t < mv ∨ p.2.t ≤ mmOf p.1 then (h, lo, hi) else
+        let s := h.getSeries p.1
+        let s' := match s.phys.getLast? with
+          | some l => if l.t ≥ p.2.t then s else { s with phys := s.phys ++ [p.2] }
+          | none => { s with phys := [p.2] }
+        (h.setSeries s', min lo p.2.t, max hi p.2.t)) (h, lo, hi)
+    | .stones xs =>
+      (xs.foldl (fun (h : Db) (p : Nat × Interval) =>
+        if p.2.maxt < mv then h else
+        if h.series.any (·.idx = p.1) then
+          let s := h.getSeries p.1
+          h.setSeries { s with tombs := addTomb s.tombs p.2 }
+        else h) h, lo, hi)
+  let (h, lo, hi) := d.wal.foldl step (base, lo0, hi0)
+  let h := { h with minT := if lo < h.minT then lo else h.minT, maxT := if hi > h.maxT then hi else h.maxT }
+  let h := if h.minT < h.minValid then { h with minT := h.minValid } else h
+  { h with series := h.series.filter fun s => !s.phys.isEmpty }
+
 /-- Merge two strictly increasing sample lists, first list wins on equal timestamps
     (structural in the fuel, which `mergeSmps` sets to the total length). -/
 def mergeSmpsAux : Nat → List Smp → List Smp → List Smp
